@@ -302,6 +302,7 @@ func (self *LevelDB) CloseTable(name string) error {
 	table := self.tables[name]
 	if table != nil {
 		table.close()
+		delete(self.tables,name)
 		return nil
 	}
 	return ETABLENOTFOUND
@@ -321,6 +322,10 @@ func (self *LevelDB) DropTable(name string) error {
 	}
 	if !src.IsDir() {
 		return EINVALIDTABLENAME
+	}
+	if table := self.tables[name]; table != nil {
+		table.close()
+		delete(self.tables,name)
 	}
 	return os.RemoveAll(tablepath)
 }
